@@ -48,7 +48,7 @@ def run(S):
     ]
     # the real printer, the renderer interpreted at representative widths, and the REAL parser on the text that comes out: whole documents, blanks symbolic
     from . import reparse as _rp, deep as _dp
-    _docs = _rp.TABLE_DOCS + _rp.NORMALISE_DOCS + _rp.BLOCK_DOCS + _rp.MISC_DOCS + _dp.DOCS + _dp.PROSE + _dp.CODE_DOCS + _dp.EMBED_DOCS + _rp.corpus_docs(S) + _rp.in_contexts(_rp.COMMENT_DOCS) + _rp.PROSE_LINE_DOCS + _rp.EVAL_DOCS + ['* - a\nb *\n', 'text #box[- a\n           b]\n']      # (documents of open known findings, keyed by document)
+    _docs = _rp.TABLE_DOCS + _rp.NORMALISE_DOCS + _rp.BLOCK_DOCS + _rp.MISC_DOCS + _dp.DOCS + _dp.PROSE + _dp.CODE_DOCS + _dp.EMBED_DOCS + _rp.corpus_docs(S) + _rp.in_contexts(_rp.COMMENT_DOCS) + _rp.PROSE_LINE_DOCS + _rp.EVAL_DOCS + ['$ mat(a, // c\n b; c) $\n', '* - a\nb *\n', 'text #box[- a\n           b]\n']      # (documents of open known findings, keyed by document)
     if S.tier != 'quick':
         _docs += _dp.OFF_DOCS
     _fr, _covr = _rp.explore(S, _docs, tabs=(2,) if S.tier == 'quick' else (2, 4), widths=(0, 40, 1 << 30) if S.tier == 'quick' else (0, 20, 40, 80, 120, 1 << 30), prop='C01')
